@@ -103,6 +103,11 @@ def ntt_overrides(log):
             '<Polynomial<Felt> as Add>::add': ov_add, '<Polynomial as Add>::add': ov_add}
 
 
+def rv_sum_ty(ex):
+    ts = [t for t, _ in ex.user.get('sum_types', [])]
+    return ts[-1] if ts else 'i64'
+
+
 def same(a, b):
     return len(a) == len(b) and all(x.eq(y) for x, y in zip(a, b))
 
@@ -239,6 +244,15 @@ def verify_scen(n, variant, mode, L=None, deadline_s=None, tag=''):
             used.add(hit)
             total = total + st.env.get('squares', ())[hit][2]
         norm = total
+        # production sizes: the accumulators must hold n_prod * (largest term). Terms are the abstracted squares (<= 2^(2k)).
+        out['checks'] += 1
+        kmax = max([k for (_, _, _, k) in st.env.get('squares', ())] or [0])
+        widths = [WIDTH[t] for t, _ in ex.user.get('sum_types', [])] + [WIDTH[rv_sum_ty(ex)]]
+        need = 1 + 10 + 2 * kmax + 1            # sign + log2(1024) + bits of one square + one more for the final s1+s2 addition
+        if min(widths) < need and not out.get('width_reported'):
+            out['width_reported'] = True
+            out['bad'].append({'kind': 'accumulator too narrow for the production degrees: %d-bit sums, %d bits needed for 1024 terms of up to 2^%d' % (min(widths), need, 2 * kmax),
+                               'model': None, 'wiring': True, 'width': True, 's1': None, 's2': None})
         accept = total <= z3.BitVecVal(bound, 64)
         ok, m = ex.check_local(rvt != accept)
         if ok:
